@@ -41,6 +41,9 @@ ASSUMPTIONS = [
     "counted, never matched by text; a case variant of one of the 40 names is an unknown section",
     "a read hit by an injected EIO may fail in any way; a chart it returns is judged like any other",
 ]
+# '@' is replaced by the unique per-variant stem; the names are ordinary on any file system
+FILE_NAMES = ["Artist - Title {Charter}/@", "Disc {} of 2/@ {0}", "100% @ %s %d", "née 歌/@ notes",
+              "a b  c/@ (1)", "@ [Expert] {x!r:>10}", "@.backup.v2", "%(name)s/@"]
 UNKNOWN_NAMES = ["Foo", "PART VOCALS", "ExpertSingleX", "expertsingle", "Song2", "Events2",
                  "ExpertGuitar", "Sync Track"]
 # body lines are rendered indented, so "}" / "{" / "[Song]" below are NOT the bare structural
@@ -142,6 +145,8 @@ def make_plan(seed: int, tier: str, index: int) -> dict[str, Any]:
         text = gen.render_sections(vsecs, newline=nl)
         data = (b"\xef\xbb\xbf" if bom else b"") + text.encode("utf-8")
         op = {"op": "parse", "text": vi, "select": None, **acc}
+        if p.random() < 0.3:
+            op["fname"] = p.choice(FILE_NAMES)
         if acc["via"] == "path" or acc.get("reader") in ("textio", "codecs", "simtext"):
             if sub == "eio" and acc.get("reader") != "simtext" and f.random() < 0.6:
                 op["io"] = {"reads": [f.choice([1, 16, 64, 4096])], "eio_at": f.randint(1, 5)}
@@ -353,7 +358,7 @@ def execute(plan: dict[str, Any]) -> dict[str, Any]:
             dim = _dimension(v, bool(delta) if n_clients == 1 else bool(op.get("io")))
             if dim != "canonical":
                 nontrivial.append(rng.digest([v["text"], v["bom"], op]))
-            if op.get("eio") and fs.path(f"v{vi}.chart") in fs.eio_raised:
+            if op.get("eio") and fs.path(parseop.stored_name(op, f"v{vi}") + ".chart") in fs.eio_raised:
                 # relaxed oracle under an injected read error: the parse may fail (with that
                 # OSError or any other exception), it must never return WRONG data.  A chart that
                 # is returned nevertheless goes through the ordinary invariance comparison below.
